@@ -1,7 +1,7 @@
 (** Link between the store evaluator and the theorems for C02: on well-formed
     cases, agreement with the repaired model IS the executable spec. *)
 From Coq Require Import List ZArith NArith Bool Lia.
-From DH Require Import Lib.CheckLib Model.Store Model.FeedSpec Proofs.StoreProofs Proofs.StoreReaders Check.StoreCheck.
+From DH Require Import Lib.CheckLib Model.Store Model.FeedSpec Model.ReverseReader Proofs.StoreProofs Proofs.StoreReaders Proofs.ReverseProofs Check.StoreCheck.
 Import ListNotations.
 Open Scope Z_scope.
 
@@ -9,6 +9,7 @@ Definition wf_sop (o : sop) : Prop :=
   match o with
   | SWrite w _ => wf_wop w
   | SChanges _ since _ _ _ _ => 0 <= since
+  | SRev _ since _ _ _ => 0 <= since \/ since = from_end
   | _ => True
   end.
 
@@ -49,7 +50,7 @@ Theorem agree_is_spec_c02_run ops : forall st s,
 Proof.
   induction ops as [|o ops IH]; intros st s Hinv Habs Hwf; [reflexivity|].
   inversion Hwf as [|? ? Ho Hops]; subst.
-  destruct o as [w o_new | ds since limit latest o_ents o_next | ds limits o_pages | id at_ scope merged o_found o_parts o_del | fam o_keys];
+  destruct o as [w o_new | ds since limit latest o_ents o_next | ds limits o_pages | id at_ scope merged o_found o_parts o_del | fam o_keys | ds since limit o_ents o_next];
     cbn [agree_run spec_run].
   - (* write *)
     destruct (apply_wop_refines (fst v_fixed) st (sget s) w Ho Hinv Habs) as [Hinv' Habs'].
@@ -70,6 +71,13 @@ Proof.
   - rewrite (IH _ _ Hinv Habs Hops). reflexivity.
   - rewrite (IH _ _ Hinv Habs Hops). reflexivity.
   - rewrite (IH _ _ Hinv Habs Hops). reflexivity.
+  - (* reverse reader *)
+    rewrite (IH _ _ Hinv Habs Hops). f_equal.
+    cbn [agree_op spec_op_ok p_changes proj_c02 negb orb].
+    pose proof (changes_rev_refines _ (get_ds st ds) since limit (Hinv ds) Ho) as Hc.
+    rewrite (Habs ds) in Hc.
+    destruct (changes_rev (get_ds st ds) since limit) as [out next].
+    rewrite <- Hc. reflexivity.
 Qed.
 
 Theorem agree_is_spec_c02 c :
